@@ -1,4 +1,4 @@
-import Utv.Lemmas.C10Items
+import Utv.Lemmas.C10Call
 /-!
 C10 — collecting errors changes reporting only, never the verdict or the value.
 
@@ -137,6 +137,132 @@ theorem C10_accept_iff_none_fails (W : World) (fuel : Nat) (decl : List FieldDec
       | nil => exact h3 hri
       | cons a as => rw [hri] at this; simp at this
 
+/-! ### calls with positional arguments (`FunctionParser.parse_params`) -/
+
+/-- A call with positional arguments, `*args` and keywords returns the same bound values fail-fast and collecting. -/
+theorem C10_call_same_value (W : World) (fuel : Nat) (sg : Sig) (mC : Mode) (o : Opts) (args : List Val)
+    (kwargs : Data) (r : List Val × Data) :
+    runCall W fuel sg .ff o args kwargs = .ok r ↔ runCall W fuel sg mC o args kwargs = .ok r := by
+  rcases runCall_strong W fuel sg mC o args kwargs with ⟨r', hF, hC⟩ | ⟨⟨x, hF⟩, x', hC⟩
+  · rw [hF, hC]
+  · rw [hF, hC]; simp
+
+/-- … and the same calls are rejected (what seed C10-C broke: an early return before `raise_error()`). -/
+theorem C10_call_same_verdict (W : World) (fuel : Nat) (sg : Sig) (mC : Mode) (o : Opts) (args : List Val)
+    (kwargs : Data) :
+    isError (runCall W fuel sg .ff o args kwargs) = isError (runCall W fuel sg mC o args kwargs) := by
+  rcases runCall_strong W fuel sg mC o args kwargs with ⟨r', hF, hC⟩ | ⟨⟨x, hF⟩, x', hC⟩
+  · rw [hF, hC]
+  · rw [hF, hC]; rfl
+
+/-- A rejected collecting call raises one `CollectedParseError`: the reports of the positional loop followed by
+those of the keyword part, cut at `max_errors`. -/
+theorem C10_call_one_exception (W : World) (fuel : Nat) (sg : Sig) (mx : Option Nat) (hk : capOk mx 0)
+    (o : Opts) (args : List Val) (kwargs : Data) (x : Exc)
+    (h : runCall W fuel sg ⟨true, mx⟩ o args kwargs = .error x) :
+    x = .collected (cap mx (callReports (parse W fuel) .ff o sg args kwargs)) ∧
+    callReports (parse W fuel) .ff o sg args kwargs ≠ [] := by
+  rw [runCall_collect W fuel sg mx hk, ← callReports_eq (parse_good W _ fuel)] at h
+  split at h
+  · simp at h
+  · rename_i hne
+    simp only [Except.error.injEq] at h
+    exact ⟨h.symm, hne⟩
+
+theorem C10_call_count_le_max (W : World) (fuel : Nat) (sg : Sig) (k : Nat) (hk : 0 < k)
+    (o : Opts) (args : List Val) (kwargs : Data) (x : Exc)
+    (h : runCall W fuel sg ⟨true, some k⟩ o args kwargs = .error x) :
+    ∃ es, x = .collected es ∧ es.length ≤ k := by
+  obtain ⟨hx, _⟩ := C10_call_one_exception W fuel sg (some k) hk o args kwargs x h
+  exact ⟨_, hx, by simp [cap, List.length_take, Nat.min_le_left]⟩
+
+/-- every error of the uncapped collecting call names an item that fails on its own … -/
+theorem callReports_sound (W : World) (fuel : Nat) (sg : Sig) (o : Opts) (args : List Val) (kwargs : Data) (e : Err)
+    (he : e ∈ callReports (parse W fuel) .ff o sg args kwargs) :
+    ∃ i, e.item = some i ∧ callFails W fuel sg o args kwargs i = true := by
+  unfold callReports at he
+  rw [posFin_keys] at he
+  rcases List.mem_append.mp he with he | he
+  · rw [posReports_eq] at he
+    obtain ⟨it, hit, hre⟩ := List.mem_filterMap.mp he
+    obtain ⟨i, h1, h2⟩ := (posRep_posFailing W fuel sg o it).1 e hre
+    refine ⟨i, h1, ?_⟩
+    unfold callFails
+    simp only [Bool.or_eq_true, List.any_eq_true, beq_iff_eq]
+    left; exact ⟨it, hit, h2⟩
+  · obtain ⟨i, h1, h2, h3⟩ := reportsX_sound (parse W fuel) .ff o sg.decl (givenPos sg args) kwargs e he
+    refine ⟨i, h1, ?_⟩
+    unfold callFails
+    rw [failsAloneX_iff, h2]
+    cases hr : reportsX (parse W fuel) .ff o (declOf sg.decl i) (givenPos sg args) (dataOf kwargs i) with
+    | nil => exact absurd hr h3
+    | cons a as => simp
+
+/-- … and every item that fails on its own is named by one of them -/
+theorem callReports_complete (W : World) (fuel : Nat) (sg : Sig) (o : Opts) (args : List Val) (kwargs : Data)
+    (i : String) (hi : callFails W fuel sg o args kwargs i = true) :
+    ∃ e ∈ callReports (parse W fuel) .ff o sg args kwargs, e.item = some i := by
+  unfold callFails at hi
+  unfold callReports
+  rw [posFin_keys]
+  simp only [Bool.or_eq_true, List.any_eq_true, beq_iff_eq] at hi
+  rcases hi with ⟨it, hit, hf⟩ | hi
+  · obtain ⟨e, he, hei⟩ := (posRep_posFailing W fuel sg o it).2 i hf
+    refine ⟨e, List.mem_append.mpr (Or.inl ?_), hei⟩
+    rw [posReports_eq]
+    exact List.mem_filterMap.mpr ⟨it, hit, he⟩
+  · rw [failsAloneX_iff] at hi
+    simp only [Bool.and_eq_true, Bool.not_eq_true', List.isEmpty_eq_false_iff] at hi
+    obtain ⟨e, he, hei⟩ := reportsX_complete (parse W fuel) .ff o sg.decl (givenPos sg args) kwargs i hi.2
+    exact ⟨e, List.mem_append.mpr (Or.inr he), hei⟩
+
+/-- For a rejected call the (uncapped) collected error names exactly the failing items: a parameter bound to a
+positional argument that is rejected when given alone, an element `*args:j` rejected by the `*args` type, a
+keyword / missing parameter / additional key that fails on its own. -/
+theorem C10_call_reported_eq_failing (W : World) (fuel : Nat) (sg : Sig) (o : Opts) (args : List Val)
+    (kwargs : Data) (x : Exc) (h : runCall W fuel sg ⟨true, none⟩ o args kwargs = .error x) :
+    ∃ es, x = .collected es ∧
+      (∀ e ∈ es, ∃ i, e.item = some i ∧ callFails W fuel sg o args kwargs i = true) ∧
+      (∀ i, callFails W fuel sg o args kwargs i = true → ∃ e ∈ es, e.item = some i) := by
+  obtain ⟨hx, _⟩ := C10_call_one_exception W fuel sg none trivial o args kwargs x h
+  exact ⟨_, hx, fun e he => callReports_sound W fuel sg o args kwargs e he,
+    fun i hi => callReports_complete W fuel sg o args kwargs i hi⟩
+
+/-- With `max_errors = k`: at most `k` errors, each naming an item of the call that fails on its own. -/
+theorem C10_call_capped_reports_failing (W : World) (fuel : Nat) (sg : Sig) (k : Nat) (hk : 0 < k) (o : Opts)
+    (args : List Val) (kwargs : Data) (x : Exc) (h : runCall W fuel sg ⟨true, some k⟩ o args kwargs = .error x) :
+    ∃ es, x = .collected es ∧ es.length ≤ k ∧
+      ∀ e ∈ es, ∃ i, e.item = some i ∧ callFails W fuel sg o args kwargs i = true := by
+  obtain ⟨hx, _⟩ := C10_call_one_exception W fuel sg (some k) hk o args kwargs x h
+  refine ⟨_, hx, by simp [cap, List.length_take, Nat.min_le_left], ?_⟩
+  intro e he
+  exact callReports_sound W fuel sg o args kwargs e (List.mem_of_mem_take he)
+
+/-- A call is accepted (in either mode) iff none of its items fails on its own. -/
+theorem C10_call_accept_iff_none_fails (W : World) (fuel : Nat) (sg : Sig) (o : Opts) (args : List Val)
+    (kwargs : Data) :
+    isError (runCall W fuel sg .ff o args kwargs) = false ↔ ∀ i, callFails W fuel sg o args kwargs i = false := by
+  rw [C10_call_same_verdict W fuel sg ⟨true, none⟩ o args kwargs, runCall_collect W fuel sg none trivial,
+    ← callReports_eq (parse_good W _ fuel)]
+  constructor
+  · intro h i
+    cases hf : callFails W fuel sg o args kwargs i with
+    | false => rfl
+    | true =>
+      exfalso
+      obtain ⟨e, he, _⟩ := callReports_complete W fuel sg o args kwargs i hf
+      cases hr : callReports (parse W fuel) .ff o sg args kwargs with
+      | nil => rw [hr] at he; cases he
+      | cons a as => rw [hr] at h; simp [isError] at h
+  · intro h
+    cases hr : callReports (parse W fuel) .ff o sg args kwargs with
+    | nil => rfl
+    | cons e es =>
+      exfalso
+      obtain ⟨i, _, h2⟩ := callReports_sound W fuel sg o args kwargs e (by rw [hr]; exact List.mem_cons_self)
+      rw [h i] at h2
+      cases h2
+
 /-! ### the code before the `fix:` commit (AllOf returned without `raise_error()`)
 
 `C10_same_verdict` is false of `runLegacy`: a conjunction whose second argument rejects the value is
@@ -174,15 +300,29 @@ def errOf : Res α → Option Exc
   | .error x => some x
 
 example :
-    errOf (run legacyWorld 3 demoDecl ⟨true, some 2⟩ { addition := some false } [("a", .atom "1"), ("zz", .atom "2")])
+    errOf (run legacyWorld 3 demoDecl ⟨true, some 2⟩ { addition := .no } [("a", .atom "1"), ("zz", .atom "2")])
       = some (.collected [{ kind := .parse, item := some "a" }, { kind := .absence, item := some "b" }]) := by
   decide
 
 example :
-    errOf (run legacyWorld 3 demoDecl ⟨true, none⟩ { addition := some false, dfs := true }
+    errOf (run legacyWorld 3 demoDecl ⟨true, none⟩ { addition := .no, dfs := true }
         [("a", .atom "1"), ("zz", .atom "2")])
       = some (.collected [{ kind := .parse, item := some "a" }, { kind := .exceed, item := some "zz" },
           { kind := .absence, item := some "b" }, { kind := .absence, item := some "c" }]) := by
+  decide
+
+/-- typed additional keys (constrained addition type: key `x` violates it, `y` does not) -/
+example :
+    errOf (run legacyWorld 3 demoDecl ⟨true, some 3⟩ { addition := .typed (.leaf 1), addTy := some (.leaf 1) }
+        [("a", .atom "1"), ("x", .atom "0"), ("b", .atom "2"), ("c", .atom "3")])
+      = some (.collected [{ kind := .parse, item := some "a" }, { kind := .parse, item := some "x" }]) := by
+  decide
+
+/-- a call giving every parameter by position, one of them invalid, plus a bad `*args` element -/
+example :
+    errOf (runCall legacyWorld 3 { decl := demoDecl, npos := 3, hasVar := true, posTy := some (.leaf 1) }
+        ⟨true, none⟩ {} [.atom "1", .atom "2", .atom "3", .atom "4"] [])
+      = some (.collected [{ kind := .parse, item := some "a" }, { kind := .parse, item := some "*args:3" }]) := by
   decide
 
 end Utv.C10
